@@ -92,9 +92,10 @@ PROPS = {
         },
     },
     "C09": {
-        "engine": "rlsim",
-        "instrument": "",
-        "cfgs": [""],
+        "parts": [
+            {"engine": "rlsim", "cfgs": [""], "share": 2, "chunk": 5000},
+            {"engine": "sysim", "cfgs": [""], "share": 1, "chunk": 1500},
+        ],
         "quick": {"seconds": 25, "chunk": 5000, "runs": 400000},
         "thorough": {"seconds": 600, "chunk": 20000},
         "rule": ("one run = tape-chosen limiter configuration (limits 1-4, intervals, key lengths /8../32 and /32../128, "
@@ -102,14 +103,20 @@ PROPS = {
                  "around the interval, period and duration boundaries incl. 0 and +-1ns; client from a per-run subset of 9 "
                  "addresses sharing or not sharing a key; qtype; response size around multiples of the estimate) through the "
                  "real Middleware+Backoff on the simulated clock; every run is non-trivial; distinct = distinct hash of the "
-                 "decision sequence"),
+                 "decision sequence.  sysim part: the rate-limiting stage of the real dnssvc handler stack (ratelimitmw) with the "
+                 "real global Backoff and real per-profile limiters (one profile without a limit of its own, one with a limit "
+                 "0-3/s for all clients, one with a limit for two client subnets; response-size estimates 100/250), 3-40 "
+                 "requests from anonymous clients and devices (EDNS CPE-ID on plain DNS, TLS server name on DoT), gaps around "
+                 "the 1 s profile window and the global interval; reference = sliding-window log per global subnet key and per "
+                 "profile; a dropped query must not reach the upstream"),
         "assumptions": [
             "backoff accounting follows the implementation's reading (hits are counted from the first over-limit event for backoff_duration): the statement does not fix it and the documentation is ambiguous; see DESIGN.md",
             "events whose timestamp lies exactly on a window or backoff boundary are not judged and end the run (the statement does not say which side is meant)",
-            "the per-profile limiter precedence of C09 is exercised by the sysim engine, not here",
+            "whether 'ANY queries are dropped for everyone' extends to a client under its profile's own limit is not judged (the profile path never consults the global limiter); such ANY queries are not generated",
+            "a profile's own limit is one window per profile (all its clients together), as the implementation has it; the statement does not say per what",
         ],
         "components": {
-            "real": ["internal/dnsserver/ratelimit (Backoff, RequestCounter, DynamicAllowlist, Middleware)", "patrickmn/go-cache on the simulated clock"],
+            "real": ["internal/dnsserver/ratelimit (Backoff, RequestCounter, DynamicAllowlist, Middleware)", "patrickmn/go-cache on the simulated clock", "sysim part: dnssvc.NewHandlers stack (ratelimitmw, device finder, real profiledb), agd.DefaultRatelimiter"],
             "stub": ["next handler (returns a response of tape-chosen size)", "response writer"],
             "sim": "clock: testing/synctest fake clock; sequential history, no scheduler needed",
         },
